@@ -174,7 +174,8 @@ theorem C12_gen : Gen.handshakeAnswerHandlers =
     -- the handshake waits RetransmitInterval per transmission, and the state machine package sets
     -- no deadline on the transport (one left behind would outlive the handshake)
     Gen.clientTimers.filter (fun t => t.1 = "handshake") = [("handshake", "cli.RetransmitInterval")] ∧
-    Gen.smDeadlineCalls = [] := by decide
+    Gen.smDeadlineCalls = [] ∧
+    (Gen.channelSends.filter (fun r => r.2.2 = "blocking")) = [("diam/sm:handleCEA", "errc", "blocking")] := by decide
 
 /-- non-vacuity: budget 2; silence, silence, then a success CEA: three CERs, two expiries, ok -/
 example : ((cur 2 false).run [.writeOk, .timer, .writeOk, .timer, .writeOk, .cea .success, .takeErrc, .cea .failing, .cea .success]).map
